@@ -122,6 +122,11 @@ fn dec(suite: &str, name: &str, b: &[u8]) -> Option<(Vec<u8>, Value)> {
         ("bbs", "pk") => bbs::PublicKey::from_bytes(b).map(|x| (x.to_bytes(), tj(&x))),
         ("bbs", "sig") => bbs::Signature::from_bytes(b).map(|x| (x.to_bytes(), tj(&x))),
         ("bbs", "pok") => bbs::PokSignatureProof::from_bytes(b).map(|x| (x.to_bytes(), tj(&x))),
+        // the compact form of a BBS public key (the point and the number of messages) as received from another party, expanded
+        ("bbs", "cpk") => bbs::CompressedPublicKey::from_bytes(b).map(|c| {
+            let pk = c.decompress();
+            (Vec::<u8>::from(pk.compress()), tj(&pk))
+        }),
         (_, "acc") => arr::<304>(b).and_then(|a| vb20::MembershipProof::from_bytes(&a).ok()).map(|x| (x.to_bytes().to_vec(), tj(&x))),
         _ => None,
     }
@@ -150,6 +155,13 @@ pub fn run(op: &str, v: &Value) -> Value {
                 }
             }
             json!({"r":"ok","samples":out})
+        }
+        "d_codec_cpk" => {
+            // the compact encoding of a fresh BBS key for [n] messages
+            let n = v["n"].as_u64().unwrap_or(3) as usize;
+            let sk = bbs::SecretKey::random(std::num::NonZeroUsize::new(n.max(1)).unwrap(), rand::thread_rng());
+            let c = bbs::CompressedPublicKey::from(&sk);
+            json!({"r":"ok","b": hex::encode(Vec::<u8>::from(c))})
         }
         "d_codec_dec" => {
             let name = v["codec"].as_str().unwrap_or("");
